@@ -422,3 +422,113 @@ Proof.
     destruct (negb (blen data =? cl)); inversion SP; subst; split; reflexivity. }
   destruct e; inversion H; subst; assumption.
 Qed.
+
+(* ------------------------------------------------------------------ *)
+(* an acknowledged UpdateActionResult: every operation it issued was accepted by the store, and
+   the operations include a CAS Put for every inlined byte string under the digest beside it *)
+Section Accepted.
+  Context {St : Type}.
+  Variable sput : St -> store_op -> St * option errc.
+  Variable Acc : store_op -> Prop.
+  Hypothesis Acc_ok : forall s o s', sput s o = (s', None) -> Acc o.
+
+  Lemma put_files_acc fs : forall s s' fs' ops,
+    put_files sput s fs = (s', fs', ops, None) ->
+    Forall Acc ops /\
+    forall f, In (Some f) fs -> blen (of_contents f) >? 0 = true ->
+      In (OpPutCAS (match of_digest f with Some d => d | None => true_digest (of_contents f) end) (of_contents f)) ops.
+  Proof.
+    induction fs as [|f t IH]; intros s s' fs' ops H; simpl in H.
+    - inversion H; subst. split; [constructor|intros f []].
+    - destruct f as [f|].
+      + destruct (blen (of_contents f) >? 0) eqn:E.
+        * destruct (sput s _) as [s1 e1] eqn:SP. destruct e1 as [c|]; [discriminate|].
+          destruct (put_files sput s1 t) as [[[s2 t'] ops2] e2] eqn:R. inversion H; subst.
+          destruct (IH _ _ _ _ R) as [A B]. split; [constructor; [eapply Acc_ok; exact SP|exact A]|].
+          intros f0 [Q|Q] L; [inversion Q; subst; left; reflexivity|right; apply B; assumption].
+        * destruct (put_files sput s t) as [[[s2 t'] ops2] e2] eqn:R. inversion H; subst.
+          destruct (IH _ _ _ _ R) as [A B]. split; [exact A|].
+          intros f0 [Q|Q] L; [inversion Q; subst; congruence|apply B; assumption].
+      + destruct (put_files sput s t) as [[[s2 t'] ops2] e2] eqn:R. inversion H; subst.
+        destruct (IH _ _ _ _ R) as [A B]. split; [exact A|].
+        intros f0 [Q|Q] L; [discriminate|apply B; assumption].
+  Qed.
+
+  Lemma put_raw_acc s c d s' ops :
+    put_raw sput s c d = (s', ops, None) ->
+    Forall Acc ops /\ (blen c >? 0 = true -> In (OpPutCAS (match d with Some g => g | None => true_digest c end) c) ops).
+  Proof.
+    unfold put_raw. destruct (blen c >? 0).
+    - destruct (sput s _) as [s1 e1] eqn:SP. intros H; inversion H; subst.
+      split; [constructor; [eapply Acc_ok; exact SP|constructor]|intros _; left; reflexivity].
+    - intros H; inversion H; subst. split; [constructor|discriminate].
+  Qed.
+
+  Lemma update_ok_inline_accepted w mok s key ar0 s' ops m :
+    update_action_result sput w mok s (Some (mkUpd (Some key) (Some ar0))) = (s', ops, Ok m) ->
+    (forall f, In (Some f) (ar_files ar0) -> blen (of_contents f) >? 0 = true ->
+       Acc (OpPutCAS (match of_digest f with Some d => d | None => true_digest (of_contents f) end) (of_contents f))) /\
+    (blen (ar_stdout_raw ar0) >? 0 = true ->
+       Acc (OpPutCAS (match ar_stdout_digest ar0 with Some g => g | None => true_digest (ar_stdout_raw ar0) end) (ar_stdout_raw ar0))) /\
+    (blen (ar_stderr_raw ar0) >? 0 = true ->
+       Acc (OpPutCAS (match ar_stderr_digest ar0 with Some g => g | None => true_digest (ar_stderr_raw ar0) end) (ar_stderr_raw ar0))).
+  Proof.
+    unfold update_action_result. simpl. intros H.
+    destruct (negb (validate_key (hash key) (size_bytes key))); [discriminate|].
+    destruct (validate_cases (Some ar0)) as [V|V]; rewrite V in H; [|discriminate].
+    destruct mok; simpl in H; [|discriminate].
+    rewrite add_worker_not_empty in H.
+    assert (FE : ar_files (add_worker w ar0) = ar_files ar0 /\ ar_stdout_raw (add_worker w ar0) = ar_stdout_raw ar0 /\
+                 ar_stdout_digest (add_worker w ar0) = ar_stdout_digest ar0 /\ ar_stderr_raw (add_worker w ar0) = ar_stderr_raw ar0 /\
+                 ar_stderr_digest (add_worker w ar0) = ar_stderr_digest ar0).
+    { unfold add_worker. destruct (ar_meta ar0) as [mm|]; [destruct (negb _)|]; repeat split. }
+    destruct FE as (F1 & F2 & F3 & F4 & F5).
+    destruct (put_files sput s (ar_files (add_worker w ar0))) as [[[s1 fs'] ops1] e1] eqn:PF.
+    destruct e1 as [c1|]; [discriminate|].
+    destruct (put_files_inv sput (fun _ => True) (fun _ _ _ _ => I) _ _ _ _ _ _ PF I) as (_ & _ & FS).
+    assert (fs' = ar_files (add_worker w ar0)) by (apply FS; apply validate_files_ok; rewrite validate_add_worker; exact V).
+    subst fs'. rewrite set_files_id in H.
+    destruct (put_files_acc _ _ _ _ _ PF) as [A1 B1].
+    destruct (put_raw sput s1 _ _) as [[s2 ops2] e2] eqn:PR1. destruct e2 as [c2|]; [discriminate|].
+    destruct (put_raw_acc _ _ _ _ _ PR1) as [A2 B2].
+    destruct (put_raw sput s2 _ _) as [[s3 ops3] e3] eqn:PR2. destruct e3 as [c3|]; [discriminate|].
+    destruct (put_raw_acc _ _ _ _ _ PR2) as [A3 B3].
+    rewrite Forall_forall in A1, A2, A3. rewrite F1 in B1. rewrite F2, F3 in B2. rewrite F4, F5 in B3.
+    split; [intros f I L; apply A1; apply B1; assumption|].
+    split; [intros L; apply A2; apply B2; exact L|intros L; apply A3; apply B3; exact L].
+  Qed.
+End Accepted.
+
+(* the reference store never accepts non-empty data that disagrees with the digest it is put
+   under — in particular not under the empty blob's digest *)
+Lemma cas_put_ok_consistent d b :
+  cas_put_ok d b = None -> blen b >? 0 = true -> blen b = size_bytes d /\ bsha b = hash d.
+Proof.
+  unfold cas_put_ok. intros H L.
+  destruct (size_bytes d <? 0); [discriminate|].
+  destruct (negb (slen (hash d) =? sha256HashStrSize)); [discriminate|].
+  destruct ((size_bytes d =? 0) && String.eqb (hash d) emptySha); [rewrite L in H; discriminate|].
+  destruct ((blen b =? size_bytes d) && String.eqb (bsha b) (hash d)) eqn:E; [|discriminate].
+  apply andb_true_iff in E as [E1 E2]. apply String.eqb_eq in E2. split; [lia|exact E2].
+Qed.
+
+(* on the reference store an acknowledged gRPC upload is CONSISTENT: every inlined byte string
+   with a digest beside it has exactly that length and SHA-256 *)
+Theorem update_accept_consistent w mok s key ar0 s' ops m :
+  update_action_result ms_put w mok s (Some (mkUpd (Some key) (Some ar0))) = (s', ops, Ok m) ->
+  (forall f g, In (Some f) (ar_files ar0) -> blen (of_contents f) >? 0 = true -> of_digest f = Some g ->
+     blen (of_contents f) = size_bytes g /\ bsha (of_contents f) = hash g) /\
+  (forall g, blen (ar_stdout_raw ar0) >? 0 = true -> ar_stdout_digest ar0 = Some g ->
+     blen (ar_stdout_raw ar0) = size_bytes g /\ bsha (ar_stdout_raw ar0) = hash g) /\
+  (forall g, blen (ar_stderr_raw ar0) >? 0 = true -> ar_stderr_digest ar0 = Some g ->
+     blen (ar_stderr_raw ar0) = size_bytes g /\ bsha (ar_stderr_raw ar0) = hash g).
+Proof.
+  intros H.
+  assert (ACC : forall s o s', ms_put s o = (s', None) ->
+                match o with OpPutCAS d b => cas_put_ok d b = None | _ => True end).
+  { intros s1 o s2 Q. destruct o as [d b| |]; try exact I. apply (ms_put_cas _ _ _ _ _ Q). reflexivity. }
+  destruct (update_ok_inline_accepted ms_put _ ACC _ _ _ _ _ _ _ _ H) as (A & B & C).
+  split; [intros f g I L D; specialize (A f I L); rewrite D in A; apply cas_put_ok_consistent; assumption|].
+  split; [intros g L D; specialize (B L); rewrite D in B; apply cas_put_ok_consistent; assumption|
+          intros g L D; specialize (C L); rewrite D in C; apply cas_put_ok_consistent; assumption].
+Qed.
